@@ -131,7 +131,9 @@ def run(ctx):
             if t == "self._connect_tls_proxy":
                 s = st.copy()
                 s.ts["ev"] = s.ts.get("ev", ()) + ("proxy-tls",)
-                s.ts["proxy_tls_host_arg"] = ast.unparse(node.args[0]) if node.args else "?"
+                b_ = it.bind_args(node, recv, pos, kw)
+                a0 = b_.get("hostname") if b_ else (pos[0] if pos else kw.get("hostname"))
+                s.ts["proxy_tls_host_arg"] = (a0.sym if a0 is not None and a0.sym else (ast.unparse(node.args[0]) if node.args else "?"))
                 return [Out("normal", s, AV("unk", truth=True, none=False))]
             if t == "self._tunnel":
                 s = st.copy()
